@@ -71,6 +71,13 @@ Theorem C18_md5_context_garbage_irrelevant : forall g1 g2 msg junk, length g1 = 
   qhashmd5 g1 (msg ++ junk) (N.of_nat (length msg)) = qhashmd5 g2 (msg ++ junk) (N.of_nat (length msg)).
 Proof. exact md5_garbage_independent. Qed.
 
+(* empty input (outside the property, which is about non-empty strings): what the code does.  FNV returns 0 (FNV-1 of the
+   empty string is the offset basis), qhashmurmur3_32 returns 0 (= MurmurHash3 x86_32 of the empty key), qhashmurmur3_128
+   returns false; qhashmd5 of no bytes is the RFC digest of the empty message (C18_md5 with msg = []) *)
+Theorem C18_empty_inputs : forall buf, (qhashfnv1_32 buf 0 = Ok 0 /\ qhashfnv1_64 buf 0 = Ok 0) /\
+  (qhashmurmur3_32 buf 0 = Ok (murmur3_x86_32 0 []) /\ qhashmurmur3_128 buf 0 = Ok None).
+Proof. exact (fun buf => conj (fnv_empty buf) (murmur_empty buf)). Qed.
+
 (* the loop condition of the pinned tree, `*dp && nbytes > 0` (repaired in /repo by the fix commit): the model with that
    condition reads the byte after the buffer and stops at the first NUL byte *)
 Theorem C18_fnv_old_condition_overreads : fnv_loop true fnv32_mul 1 [97] fnv32_basis = Crash.
@@ -109,5 +116,6 @@ Print Assumptions C18_md5_file_range_error.
 Print Assumptions C18_md5_padded_length.
 Print Assumptions C18_pure.
 Print Assumptions C18_md5_context_garbage_irrelevant.
+Print Assumptions C18_empty_inputs.
 Print Assumptions C18_fnv_old_condition_overreads.
 Print Assumptions C18_fnv_old_condition_stops_at_nul.
